@@ -36,7 +36,7 @@ func (c addrConn) RemoteAddr() net.Addr { return c.remote }
 // FaultSpec describes one single-byte modification of the traffic written by Side.
 type FaultSpec struct {
 	Side   string `json:"side"`   // "a" (renter / dialer) or "b" (host / acceptor): whose outgoing bytes are modified
-	Op     string `json:"op"`     // flip | insert | drop | trunc
+	Op     string `json:"op"`     // flip | insert | dup | drop | trunc
 	Frame  int    `json:"frame"`  // rhp2: index (mod count) among the frames Side writes after the handshake; mux: packet index after the handshake
 	Region string `json:"region"` // rhp2: len | nonce | ct | tag
 	Off    uint32 `json:"off"`    // offset inside the region / packet (mod its length)
@@ -52,6 +52,8 @@ func mutate(b []byte, op string, pos int, bit uint8) (out []byte, cut bool) {
 		out[pos] ^= 1 << (bit % 8)
 	case "insert":
 		out = append(append(append([]byte{}, b[:pos]...), bit), b[pos:]...)
+	case "dup": // insert a copy of the byte at pos
+		out = append(append(append([]byte{}, b[:pos]...), b[pos]), b[pos:]...)
 	case "drop":
 		out = append(append([]byte{}, b[:pos]...), b[pos+1:]...)
 	case "trunc":
@@ -84,6 +86,10 @@ type faultConn struct {
 	appliedLen  int // length of the write that was modified
 	appliedPos  int
 	bytesAfter  int // bytes forwarded after the modified write
+	runToEnd    bool // the bytes from the fault position to the end of the modified write are all equal
+	runByte     byte
+	nextSeen    bool // a later write followed; nextByte is its first byte
+	nextByte    byte
 	cutDone     bool
 	frameIdx    func(nFrames int) int
 	frameRegion func(frame []byte) (lo, hi int)
@@ -93,6 +99,28 @@ func (f *faultConn) arm() {
 	f.mu.Lock()
 	f.armed = true
 	f.mu.Unlock()
+}
+
+// ambiguous reports that the modified byte stream is identical to one in which the
+// modification sits at (or beyond) the boundary to the following frame, so that the
+// frame named by the spec arrives intact and the damage, if any, is to what follows:
+// dropping the last byte(s) of a frame when the next frame starts with the same value,
+// or inserting a copy of the value that fills the rest of the frame.
+func (f *faultConn) ambiguous() bool {
+	f.mu.Lock()
+	defer f.mu.Unlock()
+	if !f.applied || !f.runToEnd {
+		return false
+	}
+	switch f.spec.Op {
+	case "drop":
+		return f.nextSeen && f.nextByte == f.runByte
+	case "insert":
+		return f.spec.Bit == f.runByte
+	case "dup":
+		return true
+	}
+	return false
 }
 
 func (f *faultConn) state() (applied bool, bytesAfter int) {
@@ -115,6 +143,9 @@ func (f *faultConn) Write(b []byte) (int, error) {
 		if applied {
 			f.mu.Lock()
 			f.bytesAfter += len(b)
+			if !f.nextSeen && len(b) > 0 {
+				f.nextSeen, f.nextByte = true, b[0]
+			}
 			f.mu.Unlock()
 		}
 		return f.Conn.Write(b)
@@ -142,6 +173,12 @@ func (f *faultConn) Write(b []byte) (int, error) {
 	// side can reach the peer ahead of the modified bytes
 	f.mu.Lock()
 	f.applied, f.appliedLen, f.appliedPos = true, len(b), pos
+	f.runToEnd, f.runByte = true, b[pos]
+	for _, x := range b[pos:] {
+		if x != b[pos] {
+			f.runToEnd = false
+		}
+	}
 	f.mu.Unlock()
 	_, err := f.Conn.Write(mb)
 	if cut || (!f.frameMode && spec.Op == "drop") {
